@@ -268,6 +268,14 @@ class FG:
         self.ptr_args = ptr_args    # [(regname, size, writable)]
         self.exit_label = None
         self.selfinfo = None
+        # callee parameters that the body itself writes (see param_modes): registers that only call
+        # results may write, per class; registers only loads may write; all readable value parameters
+        self.CR = {'i': [], 'f': [], 'd': []}
+        self.LD = []
+        self.RP = []
+        self.force_cr = False
+        self.ent = None             # name of the re-entry counter parameter: the body starts with a label
+        self.entry_label = None
 
     # -- helpers
     def emit(self, op, *ops):
@@ -345,6 +353,7 @@ class FG:
 
     def src64(self, allow_mem=True):
         k = self.rng.random()
+        if self.RP and k < 0.06: return R(self.rng.choice(self.RP))   # a parameter read in place
         if k < 0.55 or not self.X: return self.X_()
         if k < 0.8: return Imm(self.imm_val())
         if allow_mem:
@@ -742,11 +751,44 @@ class FG:
                 out.append(R(ds[nd])); nd += 1
             else:
                 out.append(R(ints[i]))
+        # parameters of this function that only call results write (any result position, several at once)
+        cls = lambda t: t if t in ('f', 'd') else 'i'
+        pos = [i for i, t in enumerate(tys) if self.CR[cls(t)]]
+        if pos:
+            forced = self.rng.choice(pos) if self.force_cr else None
+            used = set()
+            for i in pos:
+                if i == forced or self.rng.random() < 0.3:
+                    c = [x for x in self.CR[cls(tys[i])] if x not in used]
+                    if c:
+                        n = self.rng.choice(c); used.add(n); out[i] = R(n)
+                        self.p.features.add('param:written-by-call-result' + ('' if i == 0 else '-pos%d' % i))
+        self.force_cr = False
         return out
+
+    def g_param_write(self):
+        """a parameter of this function assigned from a call result (external / MIR callee, call or inline,
+        any result position) or from memory - and by nothing else"""
+        r = self.rng
+        cr = [k for k in self.CR if self.CR[k]]
+        if not cr and not self.LD: return self.g_alu64()
+        if cr and (not self.LD or r.random() < 0.7):
+            self.force_cr = True
+            if self.callees and r.random() < 0.6: self.g_call_mir()
+            else: self.g_call_ext()
+            self.force_cr = False
+        else:
+            m = self.mem_operand(r.choice(INT_TYPES))
+            if m is None: return self.g_alu64()
+            self.emit('mov', R(r.choice(self.LD)), m)
+            self.p.features.add('param:written-by-load')
 
     def g_call_ext(self):
         r = self.rng
         cands = EXTERNALS if self.opts.get('fp', True) else [e for e in EXTERNALS if all(t in INT_TYPES for t in e[2] + e[3])]
+        if self.force_cr:
+            want = [e for e in cands if any(self.CR[t if t in ('f', 'd') else 'i'] for t in e[2])]
+            cands = want or cands
         eid, name, res, args = r.choice(cands)
         ops = [Ref('p_' + name), Ref(name)] + self.res_dsts(res)
         ops += [self.arg_for(t) for t in args]
@@ -756,7 +798,14 @@ class FG:
     def g_call_mir(self):
         r = self.rng
         if not self.callees: return self.g_call_ext()
-        c = r.choice(self.callees)
+        cs = self.callees
+        if self.force_cr:
+            cs = [c for c in cs if any(self.CR[t if t in ('f', 'd') else 'i'] for t in c['res'])]
+            if not cs: return self.g_call_ext()
+        # a function nobody calls is never run (and never inlined): prefer callees without a call site so far
+        called = self.p.__dict__.setdefault('called', set())
+        fresh = [c for c in cs if c['name'] not in called]
+        c = r.choice(fresh) if fresh and r.random() < 0.6 else r.choice(cs)
         ops = [Ref(c['proto']), Ref(c['name'])]
         ops += self.res_dsts(c['res'])
         for i, t in enumerate(c['args']):
@@ -778,10 +827,20 @@ class FG:
                 ops.append(R(r.choice(cands).reg))
             elif t == 'depth':
                 ops.append(Imm(r.choice([0, 1, 2, 3])))
+            elif t == 'ent':
+                ops.append(self.ent_arg())
             else:
                 ops.append(self.arg_for(t))
         code = 'inline' if r.random() < self.opts.get('p_inline', 0.4) else 'call'
         self.emit(code, *ops)
+        called.add(c['name'])
+        if r.random() < self.opts.get('p_observe_call', 0.25):
+            # the caller shows the outside world what its registers hold after the call: the registers it
+            # passed as arguments (the callee works on copies) and the ones that received results
+            regs = [o_.name for o_ in ops[2:] if isinstance(o_, R) and (o_.name in self.X or o_.name in self.RP)]
+            if regs:
+                self.emit('call', Ref('p_exv'), Ref('exv'), R(r.choice(regs)), R(r.choice(regs)))
+                self.p.features.add('call:args-results-logged-after')
         self.p.features.add(code + ':mir')
         tops = [q for q in self.P if q.reg.startswith('ta') and q.size >= 8]
         if tops and r.random() < self.opts.get('p_alloca_after_call', 0.2):
@@ -789,6 +848,16 @@ class FG:
             q = r.choice(tops)
             self.emit('xor', self.X_(), self.X_(), Mem('i64', r.randrange(0, q.size // 8) * 8, q.reg))
         if len(c['res']) > 1: self.p.features.add('call:multi-result')
+
+    def ent_arg(self):
+        """how often the callee jumps back to the label it starts with: a small constant or unknown value"""
+        r = self.rng
+        if r.random() < 0.6 or not self.X:
+            return Imm(r.choice([0, 1, 1, 2, 2, 3]))
+        t = self.new_local('en')
+        self.emit('and', R(t), self.X_(), Imm(r.choice([1, 3])))
+        if r.random() < 0.5: self.emit('add', R(t), R(t), Imm(1))
+        return R(t)
 
     def g_self_call(self):
         """bounded self recursion through the depth argument"""
@@ -802,6 +871,7 @@ class FG:
         ops = [Ref(s['proto']), Ref(self.f.name)] + self.res_dsts(self.f.res)
         for i, (t, rn) in enumerate(self.f.args):
             if rn == s['depth_reg']: ops.append(R(d))
+            elif rn == 'ent': ops.append(Imm(r.choice([0, 0, 1])))
             elif i in s['ptrs']:
                 ops.append(Mem(t, 0, rn) if t.startswith(('blk', 'rblk')) else R(rn))
             else: ops.append(self.arg_for(t))
@@ -816,6 +886,8 @@ class FG:
                  (self.g_shift, 7), (self.g_div, 7), (self.g_load, 8), (self.g_store, 9), (self.g_mov, 5),
                  (self.g_ovf, 2), (self.g_local_alloca, 2), (self.g_counted_loop, 3), (self.g_call_ext, 3),
                  (self.g_call_mir, self.opts.get('w_call', 4)), (self.g_self_call, 1)]
+        if self.LD or any(self.CR.values()):
+            kinds.append((self.g_param_write, self.opts.get('w_param_write', 8)))
         if self.opts.get('fp', True) and self.FR:
             kinds += [(self.g_farith, 8), (self.g_fcmp, 6), (self.g_fconv, 4), (self.g_fmov, 4), (self.g_fbranch, 4)]
         tot = sum(w for _, w in kinds)
@@ -902,8 +974,15 @@ class FG:
     def ret_insn(self):
         r = self.rng
         ops = []
+        fpar = {c: [rn for rn, (cl, m) in self.pmode.items() if cl == c] for c in ('f', 'd')}
         for t in self.f.res:
-            if t in ('i64', 'u64'):
+            if t in INT_TYPES and self.RP and r.random() < 0.2:
+                # a parameter returned as it is (any result position)
+                ops.append(R(r.choice(self.RP)))
+                self.p.features.add('ret:param' + ('' if len(ops) == 1 else '-pos%d' % (len(ops) - 1)))
+            elif t in ('f', 'd') and fpar[t] and r.random() < 0.2:
+                ops.append(R(r.choice(fpar[t])))
+            elif t in ('i64', 'u64'):
                 ops.append(self.X_() if r.random() < 0.85 else Imm(self.imm_val()))
             elif t in ('f', 'd'):
                 ops.append(self.fsrc(t, allow_mem=False))
@@ -911,11 +990,92 @@ class FG:
                 ops.append(self.src32(allow_mem=False))
         self.emit('ret', *ops)
 
+    def param_modes(self, int_args):
+        """how the body treats each value parameter: 'ro' never written (read through copies and in place),
+        'any' an ordinary register of the body (written by every kind of insn, values of any width),
+        'callres' written only as a result of call insns, 'load' written only by loads"""
+        r = self.rng
+        pw = self.opts.get('p_param_write', 0.3)
+        self.pmode = {}
+        for t, rn in self.f.args:
+            if rn in int_args:
+                m = r.choice(['any', 'any', 'callres', 'callres', 'callres', 'load']) if r.random() < pw else 'ro'
+                self.pmode[rn] = ('i', m)
+            elif t in ('f', 'd'):
+                self.pmode[rn] = (t, r.choice(['any', 'callres']) if r.random() < pw else 'ro')
+        narrow = [rn for t, rn in self.f.args if rn in int_args and t in NARROW]
+        if narrow and any(rn == 'ent' for t, rn in self.f.args) and r.random() < 0.7:
+            # a body that is re-entered at its first label: a narrow parameter leaves its type's range
+            self.pmode[r.choice(narrow)] = ('i', 'any')
+
+    def apply_param_modes(self):
+        for rn, (c, m) in self.pmode.items():
+            if c == 'i': self.RP.append(rn)
+            if m == 'any':
+                {'i': self.X, 'f': self.FR, 'd': self.DR}[c].append(rn)
+                self.p.features.add('param:written-any')
+            elif m == 'callres':
+                self.CR[c].append(rn)
+            elif m == 'load':
+                self.LD.append(rn)
+
+    def param_step(self):
+        """one insn changing a parameter from parameters and constants only (no local is initialised yet)"""
+        r = self.rng
+        anyp = [rn for rn, (c, m) in self.pmode.items() if m == 'any']
+        if not anyp: return
+        narrow = [rn for t, rn in self.f.args if rn in anyp and t in NARROW]
+        a = r.choice(narrow) if narrow and r.random() < 0.6 else r.choice(anyp)
+        c = self.pmode[a][0]
+        if c == 'i':
+            ints = [rn for rn, (cc, m) in self.pmode.items() if cc == 'i']
+            others = [x for x in ints if x != a]
+            b = R(r.choice(others)) if others and r.random() < 0.3 else \
+                Imm(r.choice([1, 3, 100, 255, 256, 1000, 0x7fff, 0x10000, -1, -100, 0x7fffffff, 0x100000000,
+                              1 << r.randrange(0, 64), self.imm_val() | 1]))
+            self.emit(r.choice(['add', 'add', 'sub', 'xor', 'mul', 'or']), R(a), R(a), b)
+        else:
+            self.emit(c + r.choice(['add', 'mul', 'sub']), R(a), R(a), self.fimm(c))
+        self.p.features.add('entry-label:param-changed-in-loop')
+
+    def entry_prologue(self):
+        """the body BEGINS with a label that is a jump target: either the head of a small loop over the
+        parameters standing before everything else, or the target of jumps back from the body (reentry)"""
+        r = self.rng
+        self.ent = 'ent'
+        self.entry_label = self.label()
+        self.place(self.entry_label)
+        self.p.features.add('entry-label')
+        if r.random() < 0.4:
+            for _ in range(r.randrange(0, 4)):
+                self.param_step()
+            self.emit('sub', R('ent'), R('ent'), Imm(1))
+            self.emit(r.choice(['bge', 'bge', 'bgt']), self.entry_label, R('ent'), Imm(r.choice([0, 0, 0, 1])))
+            self.p.features.add('entry-label:head-loop')
+
+    def reentry(self):
+        """jump back to the label the body starts with (bounded by the counter parameter)"""
+        r = self.rng
+        lskip = self.label()
+        self.emit('ble', lskip, R('ent'), Imm(0))
+        self.emit('sub', R('ent'), R('ent'), Imm(1))
+        for _ in range(r.choice([0, 1, 1, 2])):
+            self.param_step()
+        self.emit('jmp', self.entry_label)
+        self.place(lskip)
+        self.p.features.add('entry-label:jump-back')
+
     def generate(self, nblocks, blen):
         r = self.rng
         f = self.f
         # registers
         nx, nw = r.randrange(3, 9), r.randrange(2, 6)
+        # lean functions: a short prologue (few registers, no special FP values, at most one small top
+        # alloca), so that caller and callee stay below the default inlining thresholds after simplification
+        lean = r.random() < self.opts.get('p_lean', 0.0)
+        if lean:
+            nx, nw = r.randrange(3, 5), 2
+            self.p.features.add('func:lean')
         argregs = [rn for t, rn in f.args]
         for i in range(nx):
             n = 'x%d' % i; f.locals.append(('i64', n)); self.X.append(n)
@@ -923,20 +1083,24 @@ class FG:
             n = 'w%d' % i; f.locals.append(('i64', n)); self.W.append(n)
         f.locals.append(('i64', 'fuel'))
         if self.opts.get('fp', True):
-            for i in range(r.randrange(2, 5)):
+            for i in range(r.randrange(2, 5) if not lean else 2):
                 n = 'fr%d' % i; f.locals.append(('f', n)); self.FR.append(n)
-            for i in range(r.randrange(2, 5)):
+            for i in range(r.randrange(2, 5) if not lean else 2):
                 n = 'dr%d' % i; f.locals.append(('d', n)); self.DR.append(n)
         for k, (rn, size, w) in enumerate(self.ptr_args):
             self.P.append(PtrInfo(rn, size, w, alias=('rg%d' % k) if self.f.name == 'main' else None))
         int_args = [rn for t, rn in f.args if t in INT_TYPES and rn not in [p[0] for p in self.ptr_args]
-                    and not (self.selfinfo and rn == self.selfinfo['depth_reg'])]
+                    and not (self.selfinfo and rn == self.selfinfo['depth_reg']) and rn != 'ent']
+        self.param_modes(int_args)
+        if any(rn == 'ent' for t, rn in f.args):
+            self.entry_prologue()
         # entry: top-level allocas (adjacent: consolidated by simplify), then initialise every register
         ntop = (r.choice([0, 0, 1, 2, 3]) if r.random() >= self.opts.get('p_top_alloca', 0.0) else r.choice([1, 1, 2, 3])) \
             if self.opts.get('alloca', True) else 0
+        if lean: ntop = min(ntop, r.choice([0, 1]))
         tops = []
         for i in range(ntop):
-            n = r.choice([1, 2, 3, 4, 8, 12, 16, 24, 40, 64, 100])
+            n = r.choice([1, 2, 3, 4, 8, 12, 16, 24, 40, 64, 100]) if not lean else r.choice([2, 8, 8, 16])
             pr = 'ta%d' % i
             f.locals.append(('i64', pr))
             self.emit('alloca', R(pr), Imm(n))
@@ -966,7 +1130,7 @@ class FG:
         # special FP values that cannot be written as constants: NaN and infinities, computed from an
         # unknown zero; they are only compared / branched on (a produced NaN may not be stored)
         self.FN = {'f': [], 'd': []}
-        if self.FR and int_args and r.random() < self.opts.get('p_nan', 0.8):
+        if self.FR and int_args and not lean and r.random() < self.opts.get('p_nan', 0.8):
             for prec in ('f', 'd'):
                 z = self.new_local('fz', prec)
                 self.emit('i2' + prec, R(z), R(r.choice(int_args)))
@@ -977,7 +1141,7 @@ class FG:
                           DImm(f64bits(r.choice([1.0, -1.0]))), R(z))
                 self.FN[prec] = [nn, inf]
                 self.p.features.add('fp:nan-inf-operands')
-        for i in range(r.randrange(1, 4)):
+        for i in range(r.randrange(1, 4) if not lean else 1):
             on = 'o%d' % i
             f.locals.append(('i64', on))
             cands = [p_ for p_ in self.P if p_.size >= 8]
@@ -990,6 +1154,7 @@ class FG:
                 # no argument and no buffer to read: ask the outside world
                 self.emit('call', Ref('p_ex0'), Ref('ex0'), R(on))
             self.O.append(on)
+        self.apply_param_modes()
         if self.O and r.random() >= self.opts.get('p_constbr', 0.0):
             # a loop bound the optimiser cannot know (a known one lets GVN fold the exit test)
             self.emit('and', R('fuel'), R(r.choice(self.O)), Imm(3))
@@ -1063,6 +1228,11 @@ class FG:
                 if 'lu' not in [n for _, n in f.locals]: f.locals.append(('i64', 'lu'))
                 self.emit('laddr', R('lu'), r.choice(labs + [lret]))
                 self.p.features.add('laddr:unused')
+            if (self.LD or any(self.CR.values())) and r.random() < 0.5:
+                self.g_param_write()
+                if r.random() < 0.5: self.straight(1)
+            if self.entry_label is not None and r.random() < 0.35:
+                self.reentry()
             if p_cold and r.random() < p_cold:
                 # detour through a stub placed after the function's last insn ("cold" code after the ret):
                 # clone_bbs copies the block at lr into the stub; with the unconditional jump the original
@@ -1154,6 +1324,8 @@ def gen_program(rng, opts=None):
             args = [('i64', 'b0'), ('i64', 'b1'), ('i64', 'b2')] + [('i64', 'a%d' % i) for i in range(nint)]
             ptrs = {0: (sizes[0], True), 1: (sizes[1], True), 2: (sizes[2], False)}
             selfinfo = None
+            if rng.random() < o.get('p_entry_label', 0.12):
+                args.append(('i64', 'ent'))
         else:
             fp = o.get('fp', True)
             nres = rng.choice([0, 1, 1, 1, 2, 2, 3])
@@ -1193,6 +1365,8 @@ def gen_program(rng, opts=None):
             if rng.random() < 0.35:
                 args.append(('i64', 'depth'))
                 selfinfo = dict(depth_reg='depth', proto='p_' + name, ptrs=set(ptrs.keys()))
+            if rng.random() < o.get('p_entry_label', 0.12):
+                args.append(('i64', 'ent'))
         p.add_item(('proto', 'p_' + name, res, [t for t, _ in args]))
         ptr_args = [(args[i][1], sz, w) for i, (sz, w) in ptrs.items()]
         depth = nf - 1 - fi
@@ -1210,7 +1384,7 @@ def gen_program(rng, opts=None):
         f = g.generate(nblocks, blen)
         labbase = g.nlab
         p.add_item(('func', f))
-        argtys = ['depth' if (selfinfo and rn == 'depth') else t for t, rn in args]
+        argtys = ['depth' if (selfinfo and rn == 'depth') else 'ent' if rn == 'ent' else t for t, rn in args]
         callees.append(dict(name=name, proto='p_' + name, res=res, args=argtys, ptrs=ptrs))
         n = f.ninsns()
         p.features.add('callee-size:' + ('<=50' if n <= 50 else '<=200' if n <= 200 else '>200'))
@@ -1218,10 +1392,12 @@ def gen_program(rng, opts=None):
     p.forward_order = rng.random() < o.get('p_forward', 0.3)
     if p.forward_order: p.features.add('order:main-first')
     main = p.items[p.index['main']][1]
-    nint = len(main.args) - 3
+    has_ent = main.args[-1][1] == 'ent'
+    nint = len(main.args) - 3 - (1 if has_ent else 0)
     p.args = [REGION_BASE, REGION_BASE + 0x100000, REGION_BASE + 0x200000] + \
              [rng.choice(BOUNDARY) if rng.random() < 0.5 else rng.randrange(-1 << 63, 1 << 63) for _ in range(nint)]
-    p.oracle = [rng.choice(BOUNDARY) if rng.random() < 0.4 else rng.randrange(-1 << 63, 1 << 63) for _ in range(64)]
+    if has_ent: p.args.append(rng.choice([0, 1, 1, 2, 3]))
+    p.oracle = [rng.choice(BOUNDARY) if rng.random() < 0.4 else rng.randrange(-1 << 63, 1 << 63) for _ in range(160)]
     return p
 
 
